@@ -82,7 +82,7 @@ def outage_time_matches(t, spec):
 
 
 def c16(ctx):
-    inst = ctx.instance
+    inst = ctx.compiled_instance
     if inst is None:
         return
     doc = doc_of(ctx.scen)
@@ -266,7 +266,7 @@ def spec_file_twin(ctx, rows):
 
 
 def c17(ctx):
-    inst, st = ctx.instance, ctx.init_state
+    inst, st = ctx.compiled_instance, ctx.compiled_init_state
     if inst is None or st is None:
         return
     import impl_trace
